@@ -388,6 +388,14 @@ func c02LBValid(c c02LBCase) bool {
 	if c.EC && (c.S != 1 || c.K == "block") {
 		return false // server 1 has no timeout, hence no ReadTimeout that would end a wait for the body early
 	}
+	for _, s := range c.P {
+		if c.EC && s.K == "I" && s.N == 100 {
+			// a handler that says "100 Continue" itself asks the client for the body it then never reads: net/http
+			// closes such a connection with unread data (TCP reset), which can cost the client a large response.
+			// That is net/http's and TCP's doing, not the guards'; the scenario is "the server never asks for the body".
+			return false
+		}
+	}
 	switch c.K {
 	case "own":
 		return nC == 0 && c.S != 2
@@ -425,6 +433,12 @@ func c02LBRun(c c02LBCase) (v kit.Verdict) {
 		return q
 	}
 	cls := map[string]bool{"kind-" + c.K: true, fmt.Sprintf("server-%d", c.S): true}
+	if pl := c02LBPlan(&c02LBReq{prog: c.P}); c.RB && len(pl.body) > 0 {
+		cls["handler-reuses-write-buffer"] = true
+		if pl.largeWrites >= 2 {
+			cls["handler-reuses-write-buffer+>=2-writes>=4KiB"] = true
+		}
+	}
 	defer func() {
 		for k := range cls {
 			v.Classes = append(v.Classes, k)
@@ -462,12 +476,7 @@ func c02LBRun(c c02LBCase) (v kit.Verdict) {
 		if len(p.body) >= 4000 {
 			cls["body>=4KiB-over-real-connection"] = true
 		}
-		if c.RB && len(p.body) > 0 {
-			cls["handler-reuses-write-buffer"] = true
-			if p.largeWrites >= 2 {
-				cls["handler-reuses-write-buffer+>=2-writes>=4KiB"] = true
-			}
-		}
+
 		if cf.T > 0 && r.took >= time.Duration(cf.T)*time.Millisecond/2 {
 			// the machine stalled for half the route timeout: "returns at once" no longer describes this run
 			cls["machine-stalled"] = true
@@ -699,6 +708,11 @@ func c02LBGen(rt *rapid.T) c02LBCase {
 	}
 	if c.S == 1 && c.K != "block" && rapid.IntRange(0, 1).Draw(rt, "expect") == 0 {
 		c.EC = true
+		for i := range c.P {
+			if c.P[i].K == "I" && c.P[i].N == 100 {
+				c.P[i].N = 103 // see c02LBValid
+			}
+		}
 		if c.K == "own" {
 			// end in a guard response: the recover guard's 500 (or the handler's own 5xx kept by it)
 			if n := len(c.P); n == 0 || c.P[n-1].K != "P" {
